@@ -47,7 +47,10 @@ def confOfPayload : Payload → Conf
 
 /-- payload shape codes of the generator (quorum_tables.PAYLOADS) -/
 def payloadOfCode (code : Nat) (c : Rat) : Payload :=
-  if code ≤ 3 then .notDict else if code ≤ 5 then .dictWithout else if code ≤ 9 then .confNumeric c else .confBad
+  if code ≤ 3 then .notDict else if code ≤ 5 then .dictWithout
+  else if code ≤ 9 then .confNumeric c          -- the number itself (also one outside [0, 1]: `toVote` clamps)
+  else if code = 13 then .confNumeric 2         -- float("inf") / "Infinity" / 1e308: beyond the clamp
+  else .confBad                                 -- non-numeric, and NaN
 
 /-- shape code of "the agent's `express` raises" -/
 def raisesCode : Nat := 99
@@ -55,10 +58,14 @@ def raisesCode : Nat := 99
 /-- the numbers of `classTable` are in sixteenths -/
 def q16 (n : Nat) : Rat := (n : Rat) / 16
 
+/-- … and a payload value may be negative: code 14 = the value is `-(n/16)` -/
+def payloadValue (code n : Nat) : Rat := if code = 14 then -(q16 n) else q16 n
+
 /-- the colony member a row of `classTable` describes -/
 def rowVoter (r : List Nat × Nat × Nat × Nat × Nat) : Voter :=
   if r.2.1 = raisesCode then ⟨.raises, .absent, q16 r.2.2.2.1, q16 r.2.2.2.2⟩
-  else ⟨classifyAction r.1, confOfPayload (payloadOfCode r.2.1 (q16 r.2.2.1)), q16 r.2.2.2.1, q16 r.2.2.2.2⟩
+  else ⟨classifyAction r.1,
+    confOfPayload (payloadOfCode (if r.2.1 = 14 then 6 else r.2.1) (payloadValue r.2.1 r.2.2.1)), q16 r.2.2.2.1, q16 r.2.2.2.2⟩
 
 def voteTypeCode : VoteType → Nat
   | .permit => 0 | .block => 1 | .abstain => 2 | .defer => 3
